@@ -43,11 +43,35 @@ pub fn uri(scheme: &'static str) -> impl Strategy<Value = String> {
         "[a-z][a-z0-9.-]{0,10}",
         prop::collection::vec("[A-Za-z0-9._~!$&'()*+,;=:@%-]{1,8}", 0..4),
         prop::option::of("[A-Za-z0-9._~!$&'()*+,;=:@/?-]{0,12}"),
+        // userinfo (RFC 3986 3.2.1): user, user:password, user: (empty password), :password
+        prop::option::weighted(
+            0.35,
+            ("[A-Za-z0-9._~!$&'()*+,;=-]{0,6}", prop::option::of("[A-Za-z0-9._~!$&'()*+,;=:%-]{0,8}")),
+        ),
+        prop::option::weighted(0.2, 1u16..65535),
+        prop::option::weighted(0.2, "[A-Za-z0-9._~!$&'()*+,;=:@/?-]{0,8}"),
+        prop::bool::weighted(0.1),
     )
-        .prop_map(move |(host, path, query)| {
+        .prop_map(move |(host, path, query, userinfo, port, fragment, v6)| {
             // '%' must introduce a pct-encoded triplet
             let fix = |s: &str| s.replace('%', "%26");
-            let mut u = format!("{scheme}://{host}");
+            let mut u = format!("{scheme}://");
+            if let Some((user, password)) = userinfo {
+                u.push_str(&user);
+                if let Some(pw) = password {
+                    u.push(':');
+                    u.push_str(&fix(&pw));
+                }
+                u.push('@');
+            }
+            if v6 {
+                u.push_str("[2001:db8::1]");
+            } else {
+                u.push_str(&host);
+            }
+            if let Some(p) = port {
+                u.push_str(&format!(":{p}"));
+            }
             for p in path {
                 u.push('/');
                 u.push_str(&fix(&p));
@@ -55,6 +79,10 @@ pub fn uri(scheme: &'static str) -> impl Strategy<Value = String> {
             if let Some(q) = query {
                 u.push('?');
                 u.push_str(&q);
+            }
+            if let Some(f) = fragment {
+                u.push('#');
+                u.push_str(&f);
             }
             u
         })
